@@ -510,6 +510,26 @@ def f5(repo: Repo) -> RuleResult:
                 res.bad(Finding("F5", f2.rel, f2.node.lineno, f"Formatter.{meth}", got, f"the planner is not started with is_encode={bool(flag)} and a fresh bit cursor [0]", witness="the second message of a file starts at the first one's end offset", tag=meth))
         except Inconclusive as e:
             res.unsure(f"F5: {e}")
+    # every memset the C generator emits clears exactly the object it names
+    try:
+        from .emit import class_emissions as _cem
+
+        n_ms = 0
+        for relsfx_ in ("impls/c/renderer_c.py",):
+            for cn_, lines_ in _cem(repo, relsfx_, named="plain").items():
+                for l_ in lines_:
+                    for mm_ in re.finditer(r"memset\(([^,]+),\s*([^,]+),\s*(.+?)\);", l_):
+                        n_ms += 1
+                        ptr, val, size = mm_.group(1).strip(), mm_.group(2).strip(), mm_.group(3).strip()
+                        ok_ = (ptr == "m" and size == "sizeof(*m)") or (ptr == "s" and size in ("self.message_size_constant_name", "self.message_nbytes", "self.formatter.format_int_value(self.d.nbytes())"))
+                        res.inst(part="memset", cls=cn_, call=mm_.group(0), ok=ok_)
+                        if val != "0" or not ok_:
+                            fd = Finding("F5", m.mod(relsfx_).rel, m.mod(relsfx_).classes[cn_].node.lineno, cn_, mm_.group(0), f"`{mm_.group(0)}` does not clear exactly the object it names (a message structure is sizeof(*m) bytes, a wire buffer BYTES_LENGTH bytes; the two differ: prefixes and padding)", witness="message Ping' { uint8 seq = 1 }: 3 wire bytes, 1 struct byte: decode writes zeros behind the structure", tag=f"{cn_}:memset")
+                            fd.part = "memset"
+                            res.bad(fd)
+        res.inst(part="memset", calls=n_ms)
+    except Inconclusive as e:
+        res.unsure(f"F5: memset: {e}")
     return res
 
 
